@@ -41,6 +41,9 @@ class RefComponent:
             codes = [c.value for c in getattr(svc, "response_codes_this_timestep", [])]
             if codes:
                 v = sum(1.0 if c == 200 else -1.0 if c == 404 else 0.0 for c in codes) / len(codes)
+                self.seen_code_sets = getattr(self, "seen_code_sets", set()) | {tuple(sorted(set(codes)))}
+                if v == 0.0 and self.prev != 0.0:
+                    self.zero_average_over_memory = getattr(self, "zero_average_over_memory", 0) + 1
             elif not o.get("sticky", True):
                 v = 0.0
             else:
